@@ -46,7 +46,7 @@ WORKERS = {"quick": 16, "thorough": 16}
 WATCHDOG = {"quick": 600, "thorough": 3000}
 
 KINDS = ["select", "select", "setop", "insert", "update", "delete", "create", "drop"]
-SPECIAL_KINDS = {"update-join", "for-update-of", "update-from", "dialect-sensitive-constants", "dialect-sensitive-set", "sign-twins", "mutable-builder", "mutable-builder-setop", "unnamed-source-by-replace", "long-names"}
+SPECIAL_KINDS = {"update-join", "for-update-of", "update-from", "dialect-sensitive-constants", "dialect-sensitive-set", "sign-twins", "mutable-builder", "mutable-builder-setop", "unnamed-source-by-replace", "long-names", "aliased-insert-target"}
 
 
 def special_programs(d):
@@ -66,6 +66,24 @@ def special_programs(d):
     q = p.call(p.call(Cls(d), "from_", t1), "select", p.call(t1, "field", "a"))
     q = p.call(q, "for_update", of=("t1", "zeta", "alpha", "m_table", "b2"))
     out.append((p.prog(dialect=d, kind="for-update-of"), q.i))
+    # a statement that can be built but is too deep to render at the interpreter's default recursion limit (a left-deep sum of 700
+    # columns), with a value rendered before the deep part: every render, inline or parameterised, first or later, ends the same way
+    p = P()
+    t1 = p.new("Table", "t1")
+    acc = p.call(t1, "field", "c0")
+    for i_ in range(1, 700):
+        acc = p.bin("+", acc, p.call(t1, "field", "c%d" % i_))
+    q = p.call(p.call(p.call(Cls(d), "from_", t1), "select", p.call(t1, "field", "id")), "where", p.bin("==", p.call(t1, "field", "name"), "x"))
+    q = p.call(q, "where", p.bin(">", acc, 5))
+    out.append((p.prog(dialect=d, kind="too-deep-to-render"), q.i))
+    # an aliased INSERT target with a column list, a conflict target and assignments (every clause that writes bare column names)
+    p = P()
+    ta = p.new("Table", "accounts", alias="a")
+    ins = p.call(p.call(p.call(Cls(d), "into", ta), "columns", p.call(ta, "field", "id"), "balance"), "insert", 1, 2)
+    ins = p.call(p.call(p.call(ins, "on_conflict", p.call(ta, "field", "id")), "do_update", p.call(ta, "field", "balance"), 5), "do_update", "seen")
+    sel = p.call(p.call(Cls(d), "from_", ta), "select", p.call(ta, "field", "id"), p.attr(ta, "star"))
+    out.append((p.prog(dialect=d, kind="aliased-insert-target"), ins.i))
+    out.append((p.prog(dialect=d, kind="aliased-insert-target"), sel.i))
     # names beyond every engine's identifier limit (31, 64 and 130 characters) at every naming site
     for n_ in (31, 64, 130):
         p = P()
@@ -157,6 +175,8 @@ def corpus(tier, seed, shard, nshards):
     k = 0
     for d in DIALECT_CLASSES:
         for sp in special_programs(d):
+            if sp[0].get("meta", {}).get("kind") == "too-deep-to-render" and d not in ("Query", "PostgreSQLQuery", "MySQLQuery"):
+                continue
             k += 1
             if k % nshards == shard:  # spread over the shards
                 out.append(sp)
@@ -190,7 +210,9 @@ def cases(tier, seed, shard, nshards):
         if prog.get("meta", {}).get("kind") in SPECIAL_KINDS:
             for rep in range(1, 6):  # the fixed programs get several different render histories
                 yield {"k": "hist", "prog": prog, "tgt": tgt, "h": "%d:%d:%d:%d" % (seed, shard, i, rep)}
-        if i < nthread or prog.get("meta", {}).get("kind") in ("update-join", "for-update-of", "dialect-sensitive-set"):
+        if prog.get("meta", {}).get("kind") == "too-deep-to-render":
+            continue  # (one history is enough; the thread monitor's line-event injection would crawl through 700 levels)
+        if i < nthread or prog.get("meta", {}).get("kind") in ("update-join", "for-update-of", "dialect-sensitive-set", "aliased-insert-target"):
             yield {"k": "thread", "prog": prog, "tgt": tgt, "h": "%d:%d:%d" % (seed, shard, i)}
 
 
@@ -318,6 +340,24 @@ def run_hist(case, mon):
         i = tgt if (tgt in live and rnd.random() < 0.6) else rnd.choice(live)
         op = rnd.choice(OPS)
         cn = rnd.choice(cnames) if rnd.random() < 0.7 else env_dialect(prog)
+        if rnd.random() < 0.12:
+            # a render that is aborted half-way (the caller's parameterizer refuses its k-th value): whatever the render had
+            # put aside must be back in place
+            class _Refusing(registry()["Parameterizer"]):
+                left = rnd.randint(0, 3)
+
+                def create_param(self, value):
+                    if self.left <= 0:
+                        raise RuntimeError("refused by the caller's parameterizer")
+                    self.left -= 1
+                    return super().create_param(value)
+            try:
+                env[i].get_sql(ctxs[cn].copy(parameterizer=_Refusing()))
+                mon.count("refusing_parameterizer_not_reached")
+            except RuntimeError:
+                mon.count("renders_aborted_half_way")
+            except Exception:
+                mon.count("renders_aborted_half_way_other_exception")
         if rnd.random() < 0.25:
             with ambient(rnd) as amb:
                 out = do_op(env[i], op, ctxs[cn])
@@ -716,7 +756,7 @@ def run_case(case, mon):  # noqa: F811
 
 
 def FLOORS(tier):
-    return {"renders_under_changed_ambient_state": 2000, "module_level_objects_compared": 200, "render_events": 5000, "repeat_comparisons": 500, "twin_fingerprint_comparisons": 1000,
+    return {"renders_aborted_half_way": 300, "renders_under_changed_ambient_state": 2000, "module_level_objects_compared": 200, "render_events": 5000, "repeat_comparisons": 500, "twin_fingerprint_comparisons": 1000,
             "threaded_renders": 2000, "renders_overlapped_by_a_switch": 50, "child_interpreters": 8,
             "cross_process_digests": 2000}
 
